@@ -68,7 +68,7 @@ def _build():
             '12:00:00', '@a', 'ver:"3.0"', 'C(1,2)', 'n:1', 'n:1 kg', 's:x', 'm:', 'z:', 'r:x', 'r:x y', 'u:x', 'b:x', 'x:a:b', 'x:', '-:',
             'd:2020-01-01', 'h:12:00', 't:2020-01-01T00:00:00Z UTC', 'c:1,2', '[1]', '{"a":1}', '"x"', '[', '{', '"', '\\', '\\"', '""', '\\\\',
             '$', '$$', '`', ',', ',,', ':', '\n', '\r\n', '\r', '\t', '\n\n', 'a\n\nb', '>>', '<<', '>>\n', ' a', 'a ', '\x00', '\x01', '\x1f', '\x7f', '\x08\x0c',
-            u'é', u'\u0080', u' ', u' ', u'﻿', u'￿', u'\U0001f600', u'\ud800', '\\n', '\\u0041', '\\$', 'a"b,c', 'x\\']
+            u'é', u'\u0080', u' ', u' ', u'﻿', u'￿', u'\U0001f600', u'\ud800', '\\n', '\\u0041', '\\$', 'a"b,c', 'x\\', u'\\\u00e9', '\\\x01', 'C:\\data\\ubad0', '\\\\u0041', u'\U0001f600\\']
     reps = {'a', 'N', 'n:1', '"', '\\', '\n', ',', u'é', '\x01', '$', 'a b'}
     for s in strs:
         add(E('str:%r' % s, ('str', s), rep=s in reps))
